@@ -129,6 +129,52 @@ def dfsL (cond : Pos → Node → Bool) (pos : Pos) (parent : Option (Node × Po
   | n :: ns => dfs cond pos parent n ++ dfsL cond pos parent ns
 end
 
+/-! ### `dfs` with the `visited` set, literally
+
+`visited` is a list used as a set of component ids.  On a tree whose ids are pairwise distinct the
+`if current_node in visited` test never fires: theorem `C12_visited_set_is_dead_code` shows that the
+components returned are exactly those of `dfs` above, which is what the generators below use. -/
+
+mutual
+def Node.allIds : Node → List Nat
+  | .meter id cs => id :: allIdsL cs
+  | .batInv id bs => id :: bs
+  | .pvInv id => [id]
+  | .ev id => [id]
+  | .chp id => [id]
+def allIdsL : List Node → List Nat
+  | [] => []
+  | n :: ns => n.allIds ++ allIdsL ns
+end
+
+mutual
+def dfsV (cond : Pos → Node → Bool) (pos : Pos) (parent : Option (Node × Pos)) (vis : List Nat) :
+    Node → List Nat × List Found
+  | .meter id cs =>
+    if vis.contains id then (vis, [])
+    else if cond pos (.meter id cs) then (id :: vis, [⟨.meter id cs, pos, parent⟩])
+    else dfsVL cond (belowMeter cs) (some (.meter id cs, pos)) (id :: vis) cs
+  | .batInv id bs =>
+    if vis.contains id then (vis, [])
+    else if cond pos (.batInv id bs) then (id :: vis, [⟨.batInv id bs, pos, parent⟩])
+    else (bs ++ id :: vis, [])      -- its batteries are visited and never match
+  | .pvInv id =>
+    if vis.contains id then (vis, [])
+    else (id :: vis, if cond pos (.pvInv id) then [⟨.pvInv id, pos, parent⟩] else [])
+  | .ev id =>
+    if vis.contains id then (vis, [])
+    else (id :: vis, if cond pos (.ev id) then [⟨.ev id, pos, parent⟩] else [])
+  | .chp id =>
+    if vis.contains id then (vis, [])
+    else (id :: vis, if cond pos (.chp id) then [⟨.chp id, pos, parent⟩] else [])
+def dfsVL (cond : Pos → Node → Bool) (pos : Pos) (parent : Option (Node × Pos)) (vis : List Nat) :
+    List Node → List Nat × List Found
+  | [] => (vis, [])
+  | n :: ns =>
+    ((dfsVL cond pos parent (dfsV cond pos parent vis n).1 ns).1,
+      (dfsV cond pos parent vis n).2 ++ (dfsVL cond pos parent (dfsV cond pos parent vis n).1 ns).2)
+end
+
 /-- `dfs(grid, set(), cond)`: the grid itself never matches (same theorem), so the search is the
 union over its successors. -/
 def dfsFromGrid (cond : Pos → Node → Bool) (g : Grid) : List Found := dfsL cond (topPos g) none g.succ
@@ -161,7 +207,8 @@ def isPrimaryFallbackPair (ppos : Pos) (p c : Node) : Bool :=
   primaryFallbackPairs.any (fun lm => leafTest lm.1 c && meterPred lm.2 ppos p)
 
 /-- `_get_metric_fallback_components` for one component found by `dfs`: the primary component and its
-fallback components.  (Merging of equal primaries by the dict cannot happen for `dfs` results.) -/
+fallback components.  (Merging of equal primaries by the dict cannot happen for `dfs` results; the
+pairing branch is never taken for them — lemma `dfs_sum` — so `pairRequiresAllRequested` plays no role here.) -/
 def primaryOf (f : Found) : Node × List Node :=
   if f.node.cat == fallbackPrimaryCat then (f.node, meterFallback f.node)
   else match f.parent with
@@ -221,39 +268,44 @@ primary/fallback pair with it give ONE term (the meter, fallback = those success
 selected successors one term each. -/
 
 mutual
-def poolWalk (sel : Node → Bool) (pos : Pos) : Node → List (Node × List Node)
+/-- `req` = `pairRequiresAllRequested` of the source (false on the pinned tree): pair a selected successor
+with the meter only when ALL successors of the meter are selected. -/
+def poolWalk (req : Bool) (sel : Node → Bool) (pos : Pos) : Node → List (Node × List Node)
   | .meter id cs =>
-    let paired := cs.filter (fun c => sel c && isPrimaryFallbackPair pos (.meter id cs) c)
-    let own := cs.filter (fun c => sel c && !isPrimaryFallbackPair pos (.meter id cs) c)
+    let ok := !req || cs.all sel
+    let paired := cs.filter (fun c => sel c && (isPrimaryFallbackPair pos (.meter id cs) c && ok))
+    let own := cs.filter (fun c => sel c && !(isPrimaryFallbackPair pos (.meter id cs) c && ok))
     (if paired.isEmpty then [] else [(.meter id cs, paired)]) ++ own.map (fun c => (c, []))
-      ++ poolWalkL sel (belowMeter cs) cs
+      ++ poolWalkL req sel (belowMeter cs) cs
   | .batInv _ _ => []
   | .pvInv _ => []
   | .ev _ => []
   | .chp _ => []
-def poolWalkL (sel : Node → Bool) (pos : Pos) : List Node → List (Node × List Node)
+def poolWalkL (req : Bool) (sel : Node → Bool) (pos : Pos) : List Node → List (Node × List Node)
   | [] => []
-  | n :: ns => poolWalk sel pos n ++ poolWalkL sel pos ns
+  | n :: ns => poolWalk req sel pos n ++ poolWalkL req sel pos ns
 end
 
 /-- Selected components directly below the grid are their own primaries. -/
-def poolTerms (sel : Node → Bool) (g : Grid) : List (Node × List Node) :=
-  (g.succ.filter sel).map (fun c => (c, [])) ++ poolWalkL sel (topPos g) g.succ
+def poolTerms (req : Bool) (sel : Node → Bool) (g : Grid) : List (Node × List Node) :=
+  (g.succ.filter sel).map (fun c => (c, [])) ++ poolWalkL req sel (topPos g) g.succ
 
 /-- The pool's PV inverters (other ids are not modelled: the pools only pass PV inverter ids). -/
 def pvSel (ids : List Nat) (n : Node) : Bool := leafTest .pvInverter n && ids.contains n.id
 
 /-- `PVPowerFormula` — `ids = none` (or empty): search the graph; otherwise the given PV inverters. -/
-def pvFormula (g : Grid) (ids : Option (List Nat)) : Formula :=
+def pvFormulaR (req : Bool) (g : Grid) (ids : Option (List Nat)) : Formula :=
   match ids with
   | some (i :: is) =>
-    let ps := poolTerms (pvSel (i :: is)) g
+    let ps := poolTerms req (pvSel (i :: is)) g
     if ps.isEmpty then .ok [nonExisting pvNoneNaz]
     else .ok (ps.map (mkTerm false pvNaz pvNazNoFallback))
   | _ =>
     let ps := dfsFromGrid (anyChain pvDfsChains) g
     if ps.isEmpty then .ok [nonExisting pvNoneNaz]
     else .ok (ps.map (fun f => mkTerm false pvNaz pvNazNoFallback (primaryOf f)))
+
+def pvFormula (g : Grid) (ids : Option (List Nat)) : Formula := pvFormulaR pairRequiresAllRequested g ids
 
 /-- An inverter is used by the battery formula when one of its batteries is requested. -/
 def batSel (S : List Nat) (n : Node) : Bool :=
@@ -285,10 +337,12 @@ def allBatsL : List Node → List Nat
 end
 
 /-- `BatteryPowerFormula` for the battery ids `S` (all of which must exist in the graph). -/
-def batteryFormula (g : Grid) (S : List Nat) : Formula :=
+def batteryFormulaR (req : Bool) (g : Grid) (S : List Nat) : Formula :=
   if S.isEmpty then .ok [nonExisting batteryNoneNaz]
   else if batErrL S g.succ then .error .formulaGenerationError
-  else .ok ((poolTerms (batSel S) g).map (mkTerm false batteryNaz batteryNazNoFallback))
+  else .ok ((poolTerms req (batSel S) g).map (mkTerm false batteryNaz batteryNazNoFallback))
+
+def batteryFormula (g : Grid) (S : List Nat) : Formula := batteryFormulaR pairRequiresAllRequested g S
 
 /-! ### EV chargers (`_ev_charger_power_formula.py`) -/
 
